@@ -47,6 +47,8 @@ type recLogger struct {
 	out []string
 	err []string
 	all []string // "O:" / "E:" prefixed, global order
+	// onOut is called (outside the lock) with every output message
+	onOut func(string)
 }
 
 func (r *recLogger) Close() error                 { return nil }
@@ -55,10 +57,14 @@ func (r *recLogger) SetLogSource(string) error    { return nil }
 func (r *recLogger) SetLoggerSource(string) error { return nil }
 func (r *recLogger) Log(output ...interface{}) {
 	r.mu.Lock()
-	defer r.mu.Unlock()
 	s := fmt.Sprint(output...)
 	r.out = append(r.out, s)
 	r.all = append(r.all, "O:"+s)
+	hook := r.onOut
+	r.mu.Unlock()
+	if hook != nil {
+		hook(s)
+	}
 }
 func (r *recLogger) LogError(e ...interface{}) {
 	r.mu.Lock()
@@ -404,7 +410,10 @@ func runC18Process(rc *RunCtx) {
 	case 1:
 		code = 1 + ch.Intn("code", 255)
 	case 2:
-		sig = []string{"KILL", "TERM", "INT"}[ch.Intn("sig", 3)] // signals on which the Go runtime of the helper prints nothing
+		// signals on which the Go runtime of the helper prints nothing and dies. Not SIGINT / SIGHUP: a check started in the
+		// background of a non-interactive shell (or under nohup) inherits them as ignored, the helper would survive its own
+		// signal and exit 0 (seen as 1248 false "death by SIGINT reported as success" in a thorough run started with nohup ... &)
+		sig = []string{"KILL", "TERM", "KILL"}[ch.Intn("sig", 3)]
 	}
 	useOutput := ch.Intn("api", 3) == 0
 	withEnv := ch.Intn("env", 2) == 1
@@ -412,7 +421,8 @@ func runC18Process(rc *RunCtx) {
 	if ch.Intn("cancel", 5) == 0 {
 		cancelAt = ch.Intn("cancelat", 4)
 	}
-	res.Config = fmt.Sprintf("process stdout=%s stderr=%s ending=%d code=%d sig=%q api=%s env=%v cancelAfterMs=%d", describeScript(so), describeScript(se), ending, code, sig, map[bool]string{true: "Output", false: "Execute"}[useOutput], withEnv, cancelAt)
+	lateDraw := ch.Intn("latecancel", 2) == 0
+	res.Config = fmt.Sprintf("process stdout=%s stderr=%s ending=%d code=%d sig=%q api=%s env=%v cancelAfterMs=%d contextMayEndDuringFinalFlush=%v", describeScript(so), describeScript(se), ending, code, sig, map[bool]string{true: "Output", false: "Execute"}[useOutput], withEnv, cancelAt, lateDraw)
 	res.Digest = hashStrings(res.Config, fmt.Sprint(so.cuts), fmt.Sprint(se.cuts))
 	res.NonTrivial = ending != 0 || cancelAt >= 0 || so.cutsLines() || se.cutsLines()
 	dir, cleanup, err := scenarioDir()
@@ -453,6 +463,19 @@ func runC18Process(rc *RunCtx) {
 	rec := &recLogger{}
 	ctx, cancel := context.WithCancel(context.Background())
 	defer cancel()
+	// the context ends while the last output is being handed over, after the child has exited with status 0: the last
+	// line of standard output is not terminated, so it only reaches the logger through the end-of-process flush; the
+	// logger cancels the context at that moment. The child was not cancelled: nil and the success message are owed.
+	lateCancel := cancelAt < 0 && ending == 0 && !so.finalNL && len(so.lines) > 0 && so.lines[len(so.lines)-1] != "" && lateDraw
+	if lateCancel {
+		last := so.nonEmpty[len(so.nonEmpty)-1]
+		rec.onOut = func(m string) {
+			if m == last {
+				cancel()
+			}
+		}
+		res.Fault("context-ends-during-the-end-of-process-flush")
+	}
 	if cancelAt >= 0 {
 		t := time.AfterFunc(time.Duration(150+cancelAt*100)*time.Millisecond, cancel)
 		defer t.Stop()
